@@ -356,11 +356,30 @@ func runC17_7(c *core.Ctx) {
 		}
 		return in
 	}
+	// module helpers that hand the zone of their (address) argument to the pool
+	poolsArgZone := func(callee *types.Func) bool {
+		hf := fnOf(c, callee)
+		if hf == nil || hf.Decl.Body == nil {
+			return false
+		}
+		found := false
+		for _, cc := range callsIn(hf.Decl.Body, true) {
+			if a2, kind := poolPut(hf, cc); a2 != nil && kind == "byteslice" && strings.Contains(exprStr(a2), "Zone") {
+				found = true
+			}
+		}
+		return found
+	}
 	sol := f.Graph().Solve(p)
 	k := 0
 	sol.Walk(func(b *flow.Block, i int, n ast.Node, before uint64) {
 		for _, call := range flow.Calls(n) {
 			arg, kind := poolPut(f, call)
+			if arg == nil {
+				if cf := flow.CalleeFunc(f.Info, call); cf != nil && cf.Pkg() != nil && isModulePkg(cf.Pkg().Path()) && len(call.Args) == 1 && poolsArgZone(cf) {
+					arg, kind = call.Args[0], "byteslice"
+				}
+			}
 			if arg == nil || kind != "byteslice" {
 				continue
 			}
